@@ -153,7 +153,7 @@ def globify(rng, v):
 
 
 def gen_expr_input(tier, rng):
-    nf, nr, nfam = (26, 14, 34) if tier == 'quick' else (120, 60, 260)
+    nf, nr, nfam = (40, 24, 60) if tier == 'quick' else (70, 40, 120)
     subjects = [{'kind': 'fake', 'obj': fake_obj(rng)} for _ in range(nf)]
     subjects += [real_subject(rng) for _ in range(nr)]
     subjects += [real_subject(rng, 'realpod') for _ in range(max(3, nr // 4))]
@@ -225,7 +225,7 @@ BLN_KEYS = ['name', 'namespace', 'pod/name', 'labels/app', 'pod/labels/app', 'po
 
 
 def gen_bln_input(tier, rng):
-    ncfg, nctr = (30, 26) if tier == 'quick' else (300, 60)
+    ncfg, nctr = (60, 32) if tier == 'quick' else (200, 50)
     ctrs = []
     for i in range(nctr):
         ns = NAMESPACES[i % len(NAMESPACES)] if i < 2 * len(NAMESPACES) else rng.choice(NAMESPACES)
@@ -326,7 +326,7 @@ def ascii_ok(*ss):
     return all(ord(ch) < 128 and ch >= ' ' for s in ss for ch in s)
 
 
-HDR = ('From Coq Require Import ZArith List Bool String Ascii.\nImport ListNotations.\nFrom NV Require Import C19_Model.\n'
+HDR = ('From Coq Require Import ZArith NArith List Bool String Ascii.\nImport ListNotations.\nFrom NV Require Import C19_Model.\n'
        'Open Scope string_scope.\n')
 
 
@@ -353,6 +353,7 @@ def run(tier, seed, replay=None):
         "balloon types are modelled by name, matchExpressions and namespaces only; CPU sizing of balloons is outside this property",
     ]
     chk.prove('C19_Props')
+    log('C19: proofs checked at %.1fs' % (time.time() - chk.t0))
 
     # ---------------- inputs
     if replay:
@@ -372,6 +373,7 @@ def run(tier, seed, replay=None):
         f1 = ex.submit(go_test, './pkg/resmgr/cache/', overlays_expr(), '^TestVerifC19Expr$', {'VERIF_OUT': chk.work}, 240)
         f2 = ex.submit(go_test, './cmd/plugins/balloons/policy/', overlays_bln(), '^TestVerifC19Balloons$', {'VERIF_OUT': chk.work}, 240)
         (rc1, out1, _), (rc2, out2, _) = f1.result(), f2.result()
+    log('C19: harnesses done at %.1fs' % (time.time() - chk.t0))
     eo, bo = os.path.join(chk.work, 'c19_expr_out.jsonl'), os.path.join(chk.work, 'c19_bln_out.jsonl')
     if rc1 != 0 or not os.path.exists(eo):
         chk.corr_broken('harness-expr', 'go test failed:\n' + out1[-3000:])
@@ -386,7 +388,9 @@ def run(tier, seed, replay=None):
     n_w = weights_part(chk, ein, eo, files, stats)
     n_b, distinct_b = bln_part(chk, bin_, bo, files, stats)
 
+    log('C19: oracle done, %d case files at %.1fs' % (len(files), time.time() - chk.t0))
     results = coq_eval_many([p for _, p in files])
+    log('C19: correspondence evaluated at %.1fs' % (time.time() - chk.t0))
     for (name, p), (rc, out) in zip(files, results):
         body = parse_coq_print(out, 'M')
         if rc != 0 or body is None:
@@ -415,10 +419,12 @@ def expr_part(chk, ein, meta, eo, files, stats):
             nilrec = r
     sobj = [s['obj'] if s['kind'] == 'fake' else probes.get(i) for i, s in enumerate(subjects)]
 
-    def rep(r, extra=None):
-        d = {'expr_in': {'subjects': [subjects[r['s']]], 'exprs': [exprs[r['e']]], 'weights': []}, 'observed': r}
-        if extra:
-            d['expr_in']['exprs'] += extra
+    def rep(r, extra=None, same_fam=False):
+        d = {'expr_in': {'subjects': [subjects[r['s']]], 'exprs': [exprs[r['e']]], 'weights': []}, 'observed': r,
+             'meta': [{'fam': 0, 'joint': meta[r['e']]['joint']}]}
+        for i, x in enumerate(extra or []):
+            d['expr_in']['exprs'].append(x)
+            d['meta'].append({'fam': 0 if same_fam else i + 1, 'joint': meta[r['e']]['joint'] if same_fam else None})
         return d
 
     if nilrec and nilrec['valid'] != 'F':
@@ -476,7 +482,7 @@ def expr_part(chk, ein, meta, eo, files, stats):
                         continue
                     if ra['eval'] == rb['eval']:
                         chk.violation('not-negations-%s-%s' % (a, b), '%s and %s both evaluate to %s for key %r values %r' % (a, b, ra['eval'], key, list(vals)),
-                                      rep(ra, [exprs[ops[b]]]))
+                                      rep(ra, [exprs[ops[b]]], True))
     njoint = 0
     for j, x in enumerate(exprs):
         jt = meta[j]['joint']
@@ -511,9 +517,10 @@ def expr_part(chk, ein, meta, eo, files, stats):
                                   (pref + k, 'container' if s['kind'] == 'real' else 'pod', ob['fields'].get(k, ob['default'])['t']),
                                   {'expr_in': {'subjects': [s], 'exprs': [{'key': pref + k, 'op': 'Exists', 'values': []}], 'weights': []}})
     # ---- correspondence
-    NSH = 16
+    NSH = max(16, (len(cases) + 1499) // 1500)
     skipped = 0
     lines = [[] for _ in range(NSH)]
+    edefs = [{} for _ in range(NSH)]
     for n, r in enumerate(cases):
         x = exprs[r['e']]
         if sobj[r['s']] is None or r['kvpanic'] or r['valid'] == 'P':
@@ -526,15 +533,16 @@ def expr_part(chk, ein, meta, eo, files, stats):
             skipped += 1
             continue
         ev = {'T': 'Some true', 'F': 'Some false', 'P': 'None'}[r['eval']]
-        lines[r['e'] % NSH].append('ECase %d %s s%d %s (%s) (%s,%s)' % (n, cexpr(x['key'], x['op'], x['values']), r['s'],
+        edefs[r['e'] % NSH].setdefault(r['e'], 'Definition e%d : expr := %s.\n' % (r['e'], cexpr(x['key'], x['op'], x['values'])))
+        lines[r['e'] % NSH].append('ECase %d%%N e%d s%d %s (%s) (%s,%s)' % (n, r['e'], r['s'],
                                                                          coq_bool(r['valid'] == 'T'), ev, cstr(r['val']), coq_bool(r['ok'])))
     sdefs = ''.join('Definition s%d : subject := %s.\n' % (i, cobj(o)) for i, o in enumerate(sobj) if o is not None)
     for k in range(NSH):
         if not lines[k]:
             continue
-        p = os.path.join(chk.work, 'cases_expr_%02d.v' % k)
+        p = os.path.join(chk.work, 'cases_expr_%03d.v' % k)
         with open(p, 'w') as f:
-            f.write(HDR + sdefs)
+            f.write(HDR + sdefs + ''.join(edefs[k][j] for j in sorted(edefs[k])))
             f.write('Definition cs : list ecase := [\n%s].\n' % ';\n'.join(lines[k]))
             f.write('Definition M := Eval vm_compute in e_mismatches cs.\nPrint M.\n')
         files.append(('expressions shard %d' % k, p))
@@ -574,11 +582,11 @@ def weights_part(chk, ein, eo, files, stats):
                 chk.violation('weight-changed', 'in-range user weight %d (anti=%s) becomes %d' % (w, wc['anti'], o), rp)
             elif abs(w) > CUTOFF and w != -2 ** 31 and o != (CUTOFF if (w > 0) != wc['anti'] else -CUTOFF):
                 chk.violation('weight-clamp-wrong-side', 'user weight %d (anti=%s) becomes %d' % (w, wc['anti'], o), rp)
-            rows.append('(%d,%s,%s,%s)' % (len(rows), coq_bool(wc['anti']), zlit(w) + '%Z', zlit(o) + '%Z'))
+            rows.append('(%d%%N,%s,%s,%s)' % (len(rows), coq_bool(wc['anti']), zlit(w) + '%Z', zlit(o) + '%Z'))
     p = os.path.join(chk.work, 'cases_weights.v')
     with open(p, 'w') as f:
         f.write(HDR)
-        f.write('Definition cs : list (nat * bool * Z * Z) := [%s].\n' % ';'.join(rows))
+        f.write('Definition cs : list (N * bool * Z * Z) := [%s].\n' % ';'.join(rows))
         f.write('Definition M := Eval vm_compute in w_mismatches cs.\nPrint M.\n')
     files.append(('affinity weights', p))
     stats['weights'] = n
@@ -672,7 +680,7 @@ def bln_part(chk, bin_, bo, files, stats):
                 if e['operator'].startswith('Matches'):
                     pats += e.get('values') or []
         return all(glob_ok(p) for p in pats)
-    NSH = 8
+    NSH = max(8, (len(choices) + 299) // 300)
     lines = [[] for _ in range(NSH)]
     used_cfg = [set() for _ in range(NSH)]
     bych = {}
@@ -697,7 +705,7 @@ def bln_part(chk, bin_, bo, files, stats):
             info = cinfo[c]
             anns = ctrs[c]['pod']['annotations'] or {}
             obs = r['name'] if r['res'] == 'ok' else '!' if r['res'] == 'panic' else ''
-            lines[sh].append('BCase %d o%d [%s] %s c%d %s %s %s' % (
+            lines[sh].append('BCase %d%%N o%d [%s] %s c%d %s %s %s' % (
                 k * 1000 + c, k, ';'.join('(%s,%s)' % (cstr(a), cstr(anns[a])) for a in sorted(anns)), cstr(ctrs[c]['ctr']['name']), c,
                 cstr(info['ns']), coq_bool(ok), cstr(obs)))
             nid += 1
@@ -705,7 +713,7 @@ def bln_part(chk, bin_, bo, files, stats):
     for sh in range(NSH):
         if not lines[sh]:
             continue
-        p = os.path.join(chk.work, 'cases_bln_%02d.v' % sh)
+        p = os.path.join(chk.work, 'cases_bln_%03d.v' % sh)
         with open(p, 'w') as f:
             f.write(HDR + cdefs)
             for k in sorted(used_cfg[sh]):
